@@ -111,10 +111,13 @@ class ObjList(PList):
     """Symbolic-length list whose elements are instances of one class that differ only in scalar fields:
     element k has fields `fixed` (shared values) and, for each name in `varying`, the entry k of a z3 array."""
 
-    def __init__(self, cls, fixed, varying, n):
+    def __init__(self, cls, fixed, varying, n, avarying=None):
         super().__init__()
         self.items = None
         self.cls_, self.fixed = cls, dict(fixed)
+        # array-valued fields that differ per element: name -> (Array Int (Array Int kind), Array Int Int [lengths], kind); every element
+        # owns its array (the comprehension evaluated the constructor once per position)
+        self.avarying = dict(avarying or {})
         self.vnames = list(varying)
         self.kinds = [varying[v][1] for v in self.vnames]
         self.cols = [varying[v][0] for v in self.vnames]
@@ -127,6 +130,8 @@ class ObjList(PList):
         f = dict(self.fixed)
         for nm, c, k in zip(self.vnames, self.cols, self.kinds):
             f[nm] = Sym(z3.simplify(z3.Select(c, iz)), k)
+        for nm, (arrs, lens, k) in self.avarying.items():
+            f[nm] = SArr(z3.simplify(z3.Select(arrs, iz)), z3.simplify(z3.Select(lens, iz)), k, name=nm)
         return Obj(self.cls_, f)
 
     def col(self, name):
@@ -145,6 +150,10 @@ def _obj_comprehension(eng, n, fr, kind, first):
     saved = list(eng.pc)
     eng.pc.append(z3.And(i >= 0, i < nz))
     eng.pure_mode = getattr(eng, "pure_mode", 0) + 1
+    from .values import next_uid
+
+    mark = next_uid()
+    before = _UidsUpTo(mark)
     try:
         vv = eng.ev(n.elt, sub)
     finally:
@@ -155,16 +164,49 @@ def _obj_comprehension(eng, n, fr, kind, first):
             eng.pc.append(z3.ForAll([i], z3.Implies(z3.And(i >= 0, i < nz), h)))
     if not isinstance(vv, Obj):
         return None
-    fixed, varying = {}, {}
+    fixed, varying, avarying = {}, {}, {}
     for nm, val in vv.fields.items():
         if isinstance(val, Sym):
             varying[nm] = (z3.Lambda([i], val.z), val.kind)
         elif kind_of(val) is not None:
             varying[nm] = (z3.Lambda([i], to_z3(val)), kind_of(val))
+        elif isinstance(val, SArr) and val.uid not in before:  # an array allocated by the element expression (e.g. np.array(entry))
+            avarying[nm] = (_eta(i, val.arr), _eta(i, val.nz()), val.kind)
         else:
             fixed[nm] = val
-    out = ObjList(vv.cls, fixed, varying, z3.simplify(nz))
+    out = ObjList(vv.cls, fixed, varying, z3.simplify(nz), avarying)
     return Iter(out) if kind == "gen" else out
+
+
+def _eta(i, body):
+    """Lambda i. body, written as the array A itself when body is A[i] with i not free in A"""
+    if z3.is_select(body) and body.arg(1).eq(i) and not _mentions(body.arg(0), i):
+        return body.arg(0)
+    return z3.Lambda([i], body)
+
+
+def _mentions(t, v):
+    todo, seen = [t], set()
+    while todo:
+        a = todo.pop()
+        if a.get_id() in seen:
+            continue
+        seen.add(a.get_id())
+        if a.eq(v):
+            return True
+        if z3.is_app(a):
+            todo.extend(a.children())
+        elif z3.is_quantifier(a):
+            todo.append(a.body())
+    return False
+
+
+class _UidsUpTo:
+    def __init__(self, mark):
+        self.mark = mark
+
+    def __contains__(self, uid):
+        return uid <= self.mark
 
 
 class ModelsProxy:
@@ -294,3 +336,432 @@ def _len(eng, args, kwargs):
 
 
 models.EXTRA_MODELS[len] = _len
+
+
+# ---------------------------------------------------------------------------------------------------------------
+# lists of int lists (and lists of those) of symbolic lengths: the values that Tree.get_paths hands through the traversal
+AII = z3.ArraySort(z3.IntSort(), z3.IntSort())
+AAII = z3.ArraySort(z3.IntSort(), AII)
+AAAII = z3.ArraySort(z3.IntSort(), AAII)
+
+
+def frozen_ints(content, n, name="ints"):
+    """an immutable int list (a write through it is a failed frame obligation)"""
+    p = PList()
+    p.items, p.cols, p.kinds, p.tup, p.n = None, [content], ["int"], False, n
+    p.name, p.frozen = name, True
+    return p
+
+
+class LList(PList):
+    """list (symbolic length n) of int lists: entry k is the list Select(val, k)[0 .. Select(lens, k)).  The element lists are
+    immutable in this model: they are handed out as frozen snapshots."""
+
+    def __init__(self, val, lens, n, name="ll"):
+        super().__init__()
+        self.items, self.cols, self.kinds, self.tup, self.n, self.name = None, [val, lens], ["int*", "int"], False, n, name
+
+    @staticmethod
+    def fresh(eng, name="ll", n=None):
+        n = z3.Int(fresh_name(name + "_len")) if n is None else n
+        v, l = z3.Const(fresh_name(name + "_v"), AAII), z3.Const(fresh_name(name + "_l"), AII)
+        i = z3.Int(fresh_name("i"))
+        eng.assume(z3.And(n >= 0, z3.ForAll([i], z3.Select(l, i) >= 0)))
+        return LList(v, l, n, name)
+
+    def get(self, i):
+        iz = to_z3(i, "int")
+        return frozen_ints(z3.Select(self.cols[0], iz), z3.Select(self.cols[1], iz), self.name + "_entry")
+
+    def promote(self, *a, **k):
+        raise Unsupported("promotion of a list of lists")
+
+    def __pyvc_getitem__(self, eng, idx):
+        if isinstance(idx, slice):
+            raise Unsupported("slice of a list of lists of symbolic length")
+        return self.get(models.norm_index(eng, idx, self.n, "list index"))
+
+
+def ll_view(v):
+    """(val: Array Int (Array Int Int), lens: Array Int Int, n) of a list of int lists: an LList, or a concrete list whose
+    items are int lists"""
+    if isinstance(v, LList):
+        return v.cols[0], v.cols[1], zint(v.n)
+    if isinstance(v, PList) and v.items is not None and all(isinstance(x, PList) and not isinstance(x, LList) for x in v.items):
+        val, lens = z3.K(z3.IntSort(), z3.K(z3.IntSort(), z3.IntVal(0))), z3.K(z3.IntSort(), z3.IntVal(0))
+        for k, x in enumerate(v.items):
+            if x.items is None:
+                if x.kinds != ["int"] or x.tup:
+                    return None
+                c, ln = x.cols[0], zint(x.n)
+            else:
+                c = z3.K(z3.IntSort(), z3.IntVal(0))
+                for j, e in enumerate(x.items):
+                    if kind_of(e) not in ("int", "bool"):
+                        return None
+                    c = z3.Store(c, j, to_z3(e, "int"))
+                ln = z3.IntVal(len(x.items))
+            val, lens = z3.Store(val, k, c), z3.Store(lens, k, ln)
+        return val, lens, z3.IntVal(len(v.items))
+    return None
+
+
+class StarSeq:
+    """`*seq` of a sequence of symbolic length, handed to the callee's model as one marker argument"""
+
+    def __init__(self, seq):
+        self.seq = seq
+
+
+class LLList(PList):
+    """list (symbolic length n) of lists of int lists: entry k is LList(Select(val, k), Select(lens, k), Select(ns, k))"""
+
+    def __init__(self, val, lens, ns, n, name="lll"):
+        super().__init__()
+        self.items, self.cols, self.kinds, self.tup, self.n, self.name = None, [val, lens, ns], ["int**", "int*", "int"], False, n, name
+
+    @staticmethod
+    def fresh(eng, n, name="lll"):
+        v, l, ns = z3.Const(fresh_name(name + "_v"), AAAII), z3.Const(fresh_name(name + "_l"), AAII), z3.Const(fresh_name(name + "_n"), AII)
+        i, j = z3.Int(fresh_name("i")), z3.Int(fresh_name("j"))
+        eng.assume(z3.ForAll([i], z3.Select(ns, i) >= 0))
+        eng.assume(z3.ForAll([i, j], z3.Select(z3.Select(l, i), j) >= 0))
+        return LLList(v, l, ns, n, name)
+
+    def get(self, i):
+        iz = to_z3(i, "int")
+        return LList(z3.Select(self.cols[0], iz), z3.Select(self.cols[1], iz), z3.Select(self.cols[2], iz), self.name + "_entry")
+
+    def promote(self, *a, **k):
+        raise Unsupported("promotion of a list of lists of lists")
+
+    def __pyvc_getitem__(self, eng, idx):
+        if isinstance(idx, slice):
+            raise Unsupported("slice of a list of lists of symbolic length")
+        return self.get(models.norm_index(eng, idx, self.n, "list index"))
+
+    def __pyvc_star__(self, eng):
+        return StarSeq(self)
+
+
+def chain_star(eng, lll):
+    """itertools.chain(*L) for a list L (symbolic length K) of lists of int lists: the concatenation.  Ghost offsets:
+    off(0) = 0, off(k+1) = off(k) + len(L[k]), off monotone; the result has off(K) entries, entry off(k) + j is L[k][j]
+    (0 <= j < len(L[k])), and every position i < off(K) lies in exactly one segment seg(i)."""
+    eng.assumptions.add("stdlib-model:itertools.chain(*L) over a list of lists of symbolic length = their concatenation (ghost offsets off(k) = len(L[0]) + ... + len(L[k-1]), monotone; seg(i) = the list that position i comes from)")
+    val3, lens2, ns = lll.cols
+    K = zint(lll.n)
+    tag = fresh_name("cat")
+    off = z3.Function(tag + "_off", z3.IntSort(), z3.IntSort())
+    seg = z3.Function(tag + "_seg", z3.IntSort(), z3.IntSort())
+    k, k2, i = z3.Int("k_" + tag), z3.Int("m_" + tag), z3.Int("i_" + tag)
+    eng.assume(off(0) == 0)
+    eng.assume(z3.ForAll([k], z3.Implies(z3.And(0 <= k, k < K), off(k + 1) == off(k) + z3.Select(ns, k)), patterns=[off(k + 1), z3.Select(ns, k)]))
+    eng.assume(z3.ForAll([k, k2], z3.Implies(z3.And(0 <= k, k <= k2, k2 <= K), off(k) <= off(k2)), patterns=[z3.MultiPattern(off(k), off(k2))]))
+    eng.assume(z3.ForAll([i], z3.Implies(z3.And(0 <= i, i < off(K)), z3.And(0 <= seg(i), seg(i) < K, off(seg(i)) <= i, i < off(seg(i) + 1))), patterns=[seg(i)]))
+    n = off(K)
+    # the result's entries as fresh arrays with pointwise definitions (no lambda terms: cheaper for the solver)
+    outv, outl = z3.Const(tag + "_v", AAII), z3.Const(tag + "_l", AII)
+    src = lambda arr3: z3.Select(z3.Select(arr3, seg(i)), i - off(seg(i)))
+    eng.assume(z3.ForAll([i], z3.Select(outv, i) == src(val3), patterns=[z3.Select(outv, i)]))
+    eng.assume(z3.ForAll([i], z3.Select(outl, i) == src(lens2), patterns=[z3.Select(outl, i)]))
+    out = LList(outv, outl, n, "chained")
+    eng.ghost["last-chain"] = dict(off=off, seg=seg, K=K, src=lll, out=out)
+    return out
+
+
+_chain0 = _chain
+
+
+def _chain(eng, args, kwargs):  # noqa: F811
+    if _mine(eng) and len(args) == 1 and isinstance(args[0], StarSeq) and isinstance(args[0].seq, LLList):
+        return Iter(chain_star(eng, args[0].seq))
+    return _chain0(eng, args, kwargs)
+
+
+models.EXTRA_MODELS[itertools.chain] = _chain
+
+
+def _list(eng, args, kwargs):
+    v = args[0] if args else None
+    inner = v.seq if isinstance(v, Iter) and not v.consumed else v
+    if isinstance(inner, LList):
+        if isinstance(v, Iter):
+            v.consumed = True
+        return LList(inner.cols[0], inner.cols[1], inner.n, "listed")  # a new list object with the same (immutable) element lists
+    return models._b_list(eng, args, kwargs)
+
+
+models.EXTRA_MODELS[list] = _list
+
+
+# ---------------------------------------------------------------------------------------------------------------
+# proof steps in a reduced context
+def _has_nested_array(t, cache={}):
+    """does the formula mention a term whose sort is an array of arrays (contents of lists of lists)?"""
+    key = t.get_id()
+    if key in cache and cache[key][0].eq(t):  # the cached term is kept alive, so its id cannot be reused by another term
+        return cache[key][1]
+    todo, seen, hit = [t], set(), False
+    while todo and not hit:
+        a = todo.pop()
+        if a.get_id() in seen:
+            continue
+        seen.add(a.get_id())
+        if z3.is_quantifier(a):
+            todo.append(a.body())
+            continue
+        so = a.sort()
+        if so.kind() == z3.Z3_ARRAY_SORT and so.range().kind() == z3.Z3_ARRAY_SORT:
+            hit = True
+        elif z3.is_app(a):
+            todo.extend(a.children())
+    cache[key] = (t, hit)
+    return hit
+
+
+def prove_without_list_contents(eng, label, goal, kind="annotation", note=""):
+    """Like eng.prove, but the obligation's hypotheses are the SUBSET of the path condition that does not speak about the contents of
+    lists of lists (nested arrays).  Sound: fewer hypotheses prove a stronger statement.  For steps that are pure arithmetic /
+    uninterpreted-function reasoning the array theory only costs time."""
+    from .engine import Oblig
+
+    hyps = [h for h in eng.pc if not _has_nested_array(h)]
+    note = (note + " " if note else "") + "[reduced context]" + (f" [variant {eng.variant}]" if getattr(eng, "variant", "") else "")
+    eng.obligs.append(Oblig(f"{eng.prop}/{label}", hyps, goal, kind, note))
+    eng.pc.append(goal)
+
+
+def _symbols(t, cache={}):
+    """names of the uninterpreted function symbols and constants of a formula"""
+    key = t.get_id()
+    if key in cache and cache[key][0].eq(t):  # the cached term is kept alive, so its id cannot be reused by another term
+        return cache[key][1]
+    out, todo, seen = set(), [t], set()
+    while todo:
+        a = todo.pop()
+        if a.get_id() in seen:
+            continue
+        seen.add(a.get_id())
+        if z3.is_quantifier(a):
+            todo.append(a.body())
+            for k in range(a.num_patterns()):
+                todo.extend(a.pattern(k).children())
+        elif z3.is_app(a):
+            if a.decl().kind() == z3.Z3_OP_UNINTERPRETED:
+                out.add(a.decl().name())
+            todo.extend(a.children())
+    cache[key] = (t, out)
+    return out
+
+
+def _is_quantified(t):
+    todo, seen = [t], set()
+    while todo:
+        a = todo.pop()
+        if a.get_id() in seen:
+            continue
+        seen.add(a.get_id())
+        if z3.is_quantifier(a):
+            return True
+        if z3.is_app(a):
+            todo.extend(a.children())
+    return False
+
+
+def prove_in_vocabulary(eng, label, goal, vocabulary, kind="annotation", note=""):
+    """Like eng.prove, but the hypotheses are a SUBSET of the path condition: every quantifier-free fact, and the quantified facts
+    that speak only about the given vocabulary (z3 function declarations / constants, or names).  Sound (fewer hypotheses prove a
+    stronger statement); it keeps a proof step independent of unrelated facts, so that the solver's work is small and repeatable."""
+    from .engine import Oblig
+
+    names = set()
+    for s in vocabulary:
+        if isinstance(s, str):
+            names.add(s)
+        elif isinstance(s, z3.FuncDeclRef):
+            names.add(s.name())
+        else:
+            names |= _symbols(s)  # a term: every uninterpreted symbol in it
+    hyps = [h for h in eng.pc if not _is_quantified(h) or _symbols(h) <= names]
+    note = (note + " " if note else "") + "[context restricted to: " + ", ".join(sorted(names)) + "]" + (f" [variant {eng.variant}]" if getattr(eng, "variant", "") else "")
+    eng.obligs.append(Oblig(f"{eng.prop}/{label}", hyps, goal, kind, note))
+    eng.pc.append(goal)
+
+
+# ---------------------------------------------------------------------------------------------------------------
+# lists of Path / Branch objects on one tree (symbolic length), and lists of (such a list, int list) pairs:
+# the values that Tree.get_branches hands through the traversal
+def pointwise(eng, sort, name, body_of, i=None):
+    """a fresh array A with  forall i. A[i] == body_of(i)  (pattern A[i]); no lambda term is created"""
+    a = z3.Const(fresh_name(name), sort)
+    i = z3.Int(fresh_name("pw")) if i is None else i
+    eng.assume(z3.ForAll([i], z3.Select(a, i) == body_of(i), patterns=[z3.Select(a, i)]))
+    return a
+
+
+class BranchSeq(PList):
+    """list (symbolic length n) of objects of ONE class (Tree.Path / Tree.Branch) that share all fields (`fixed`: attach, names,
+    source) except their index array: entry k has idx = cols[0][k] [0 .. cols[1][k]).  The objects are values here: identity is not
+    observed, the index array of a stored object is never written (the handed-out arrays are frozen)."""
+
+    def init_seq(self, idx=None, lens=None, n=0, cls=None, fixed=None, name="branches"):
+        self.items, self.kinds, self.tup, self.name = None, ["int*", "int"], False, name
+        self.cols = [idx if idx is not None else z3.Const(fresh_name(name + "_idx"), AAII), lens if lens is not None else z3.Const(fresh_name(name + "_len"), AII)]
+        self.n, self.cls_, self.fixed = n, cls, (dict(fixed) if fixed is not None else None)
+        return self
+
+    @staticmethod
+    def make(idx=None, lens=None, n=0, cls=None, fixed=None, name="branches"):
+        return BranchSeq().init_seq(idx, lens, n, cls, fixed, name)
+
+    def get(self, i):
+        iz = to_z3(i, "int")
+        if self.cls_ is None:
+            raise Unsupported("element of a list of branches whose class is not known yet")
+        a = SArr(z3.Select(self.cols[0], iz), z3.Select(self.cols[1], iz), "int", name="idx")
+        a.frozen = True
+        return Obj(self.cls_, dict(self.fixed, idx=a))
+
+    def promote(self, *a, **k):
+        raise Unsupported("promotion of a list of branches")
+
+    def __pyvc_getitem__(self, eng, idx):
+        if isinstance(idx, slice):
+            raise Unsupported("slice of a list of branches of symbolic length")
+        return self.get(models.norm_index(eng, idx, self.n, "list index"))
+
+    def adopt(self, cls, fixed):
+        if self.cls_ is None:
+            self.cls_, self.fixed = cls, dict(fixed)
+            return
+        if cls is not self.cls_ or set(fixed) != set(self.fixed) or any(not _same_value(fixed[k], self.fixed[k]) for k in fixed):
+            raise Unsupported(f"list of branches: objects of another class / on another tree ({cls} vs {self.cls_}; {sorted(fixed)} vs {sorted(self.fixed)}; " + ", ".join(k for k in fixed if k in self.fixed and not _same_value(fixed[k], self.fixed[k])) + ")")
+
+
+def _same_value(a, b):
+    return a is b or (type(a) is type(b) and not isinstance(a, (Obj, PList, SArr, NArr, Sym)) and a == b)
+
+
+def branch_seq_empty(eng, lst):
+    """loop-contract `types` hint: a still empty concrete list that will receive Branch objects becomes an (empty) BranchSeq in place"""
+    if lst.items:
+        raise Unsupported("branch_seq_empty: the list is not empty")
+    lst.__class__ = BranchSeq
+    lst.init_seq(name=getattr(lst, "name", "branches") or "branches")
+    eng.assumptions.add("list-model: a list of Path/Branch objects on one tree is stored as the list of their index arrays (the objects are values: identity is never observed, a stored index array is never written)")
+
+
+def _bs_obj_fields(x):
+    if not (isinstance(x, Obj) and isinstance(x.fields.get("idx"), SArr) and x.fields["idx"].kind == "int"):
+        raise Unsupported("append of something that is not a Path/Branch object with an int index array")
+    return x.cls, {k: v for k, v in x.fields.items() if k != "idx"}, x.fields["idx"]
+
+
+def _bs_append(eng, recv, args, kwargs):
+    (x,) = args
+    models.check_frame(eng, recv)
+    cls, fixed, idx = _bs_obj_fields(x)
+    recv.adopt(cls, fixed)
+    n = zint(recv.n)
+    recv.cols = [z3.Store(recv.cols[0], n, idx.arr), z3.Store(recv.cols[1], n, idx.nz())]
+    recv.n = z3.simplify(n + 1)
+    idx.frozen = True  # the object's array is now also reachable through the list: values only
+    return None
+
+
+def _bs_reverse(eng, recv):
+    models.check_frame(eng, recv)
+    eng.assumptions.add("stdlib-model:list.reverse() reverses in place (entry i becomes entry n-1-i)")
+    n = zint(recv.n)
+    c0, c1 = recv.cols
+    recv.cols = [pointwise(eng, AAII, recv.name + "_ridx", lambda i: z3.Select(c0, n - 1 - i)), pointwise(eng, AII, recv.name + "_rlen", lambda i: z3.Select(c1, n - 1 - i))]
+    return None
+
+
+def _bs_extend(eng, recv, args, kwargs):
+    (src,) = args
+    models.check_frame(eng, recv)
+    if isinstance(src, Iter):
+        src.consumed, src = True, src.seq
+    if not isinstance(src, BranchSeq):
+        raise Unsupported("extend of a list of branches by something else")
+    eng.assumptions.add("stdlib-model:list.extend(l2) appends the entries of l2 in order")
+    if src.cls_ is not None:
+        recv.adopt(src.cls_, src.fixed)
+    n = zint(recv.n)
+    c0, c1, s0, s1 = recv.cols + src.cols
+    recv.cols = [pointwise(eng, AAII, recv.name + "_xidx", lambda i: z3.If(i < n, z3.Select(c0, i), z3.Select(s0, i - n))),
+                 pointwise(eng, AII, recv.name + "_xlen", lambda i: z3.If(i < n, z3.Select(c1, i), z3.Select(s1, i - n)))]
+    recv.n = z3.simplify(n + zint(src.n))
+    return None
+
+
+models.EXTRA_METHODS[(BranchSeq, "append")] = _bs_append
+models.EXTRA_METHODS[(BranchSeq, "extend")] = _bs_extend
+
+_m_reverse0 = _m_reverse
+
+
+def _m_reverse(eng, recv, args, kwargs):  # noqa: F811
+    if isinstance(recv, BranchSeq):
+        return _bs_reverse(eng, recv)
+    if _mine(eng) and isinstance(recv, PList) and recv.items is None and not isinstance(recv, (LList, LLList)) and recv.kinds == ["int"]:
+        models.check_frame(eng, recv)
+        eng.assumptions.add("stdlib-model:list.reverse() reverses in place (entry i becomes entry n-1-i)")
+        n, c = zint(recv.n), recv.cols[0]
+        recv.cols = [pointwise(eng, AII, recv.name + "_rev", lambda i: z3.Select(c, n - 1 - i))]
+        return None
+    return _m_reverse0(eng, recv, args, kwargs)
+
+
+models.EXTRA_METHODS[(PList, "reverse")] = _m_reverse
+
+
+class PairList(PList):
+    """list (symbolic length n) of (BranchSeq, int list) pairs: entry k = (branches with index arrays cols[0][k][i] of lengths
+    cols[1][k][i], i < cols[2][k];  ints cols[3][k][0 .. cols[4][k]) ).  `get` hands out MUTABLE objects (the leave callback of
+    get_branches consumes its children's results); aliasing between two reads of one entry is not modelled, so an entry may be read
+    only once per path (`view` is the read of specification code)."""
+
+    def __init__(self, eng, n, cls, fixed, name="pre"):
+        super().__init__()
+        mk = lambda suffix, sort: z3.Const(fresh_name(f"{name}_{suffix}"), sort)
+        self.items, self.kinds, self.tup, self.n, self.name = None, ["int**", "int*", "int", "int*", "int"], True, n, name
+        self.cols = [mk("bidx", AAAII), mk("blen", AAII), mk("bn", AII), mk("ch", AAII), mk("cn", AII)]
+        self.cls_, self.fixed, self.reads = cls, dict(fixed), 0
+        i, j, k, k2 = z3.Int(fresh_name("i")), z3.Int(fresh_name("j")), z3.Int(fresh_name("k")), z3.Int(fresh_name("m"))
+        bn = self.cols[2]
+        eng.assume(z3.ForAll([i], z3.And(z3.Select(bn, i) >= 0, z3.Select(self.cols[4], i) >= 0)))
+        eng.assume(z3.ForAll([i, j], z3.Select(z3.Select(self.cols[1], i), j) >= 0))
+        # ghost: loff(k) = (number of branches of entry 0) + 1 + ... + (number of branches of entry k-1) + 1, and the entry lseg(p) whose
+        # block [loff(k), loff(k+1)) holds position p  (what a consumer that emits len(branches_k) + 1 items per entry produces)
+        tag = fresh_name("blk")
+        self.loff, self.lseg = z3.Function(tag + "_off", z3.IntSort(), z3.IntSort()), z3.Function(tag + "_seg", z3.IntSort(), z3.IntSort())
+        loff, lseg, K = self.loff, self.lseg, zint(n)
+        eng.assume(loff(0) == 0)
+        eng.assume(z3.ForAll([k], z3.Implies(z3.And(0 <= k, k < K), loff(k + 1) == loff(k) + z3.Select(bn, k) + 1), patterns=[loff(k + 1), z3.Select(bn, k)]))
+        eng.assume(z3.ForAll([k, k2], z3.Implies(z3.And(0 <= k, k <= k2, k2 <= K), loff(k) <= loff(k2)), patterns=[z3.MultiPattern(loff(k), loff(k2))]))
+        eng.assume(z3.ForAll([i], z3.Implies(z3.And(0 <= i, i < loff(K)), z3.And(0 <= lseg(i), lseg(i) < K, loff(lseg(i)) <= i, i < loff(lseg(i) + 1))), patterns=[lseg(i)]))
+        eng.assumptions.add("ghost definitions per list of child results: loff(k) = sum over the first k entries of (number of branches + 1), monotone; lseg(p) = the entry whose block holds position p")
+
+    def view(self, k):
+        kz = to_z3(k, "int")
+        b = BranchSeq.make(z3.Select(self.cols[0], kz), z3.Select(self.cols[1], kz), z3.Select(self.cols[2], kz), self.cls_, self.fixed, self.name + "_branches")
+        c = PList()
+        c.items, c.cols, c.kinds, c.tup, c.n, c.name = None, [z3.Select(self.cols[3], kz)], ["int"], False, z3.Select(self.cols[4], kz), self.name + "_chain"
+        return (b, c)
+
+    def get(self, k):
+        self.reads += 1
+        if self.reads > 1:
+            raise Unsupported("second read of an entry of the child results (aliasing between two reads is not modelled)")
+        return self.view(k)
+
+    def promote(self, *a, **k):
+        raise Unsupported("promotion of a list of pairs")
+
+    def __pyvc_getitem__(self, eng, idx):
+        if isinstance(idx, slice):
+            raise Unsupported("slice of the child results")
+        return self.get(models.norm_index(eng, idx, self.n, "list index"))
